@@ -2,6 +2,7 @@ package an
 
 import (
 	"go/token"
+	"go/types"
 
 	"golang.org/x/tools/go/ssa"
 
@@ -315,6 +316,17 @@ func (x FV) ResolveTrace(stop func(*ssa.Function) bool) (FV, []FV) {
 				return FV{v, x.F}, trace
 			}
 			rets := Returns(f)
+			if len(rets) > 1 {
+				// (value, error) helpers: the value on the one successful return
+				var okRets []*ssa.Return
+				for _, r := range rets {
+					last := r.Results[len(r.Results)-1]
+					if k, isK := last.(*ssa.Const); isK && k.IsNil() && isErrorType(last.Type()) {
+						okRets = append(okRets, r)
+					}
+				}
+				rets = okRets
+			}
 			if len(rets) != 1 || y.Index >= len(rets[0].Results) {
 				return FV{v, x.F}, trace
 			}
@@ -374,3 +386,7 @@ func OutOfGoroutine(all []*ssa.Function, v ssa.Value) ssa.Value {
 
 // Chain lists the instructions from the root frame down to the event.
 func Chain(e Event) []ssa.Instruction { return chain(e) }
+
+func isErrorType(t types.Type) bool {
+	return types.Identical(t, types.Universe.Lookup("error").Type())
+}
